@@ -527,6 +527,27 @@ class Interp:
             return type(v)(self.fresh_like(x, base + "[%d]" % i) for i, x in enumerate(v))
         raise OutOfSubset("cannot havoc %r (give havoc_types)" % (v,))
 
+    def name_seq(self, seq, base):
+        """Fresh array constants equal to the (If / Store) terms of seq; the equalities are assumed."""
+        cols = []
+        for i, c in enumerate(seq.cols):
+            if z3.is_const(c):
+                cols.append(c)
+                continue
+            a = z3.Array(self.reg.fresh("%s_n%d" % (base, i)), z3.IntSort(), c.range())
+            self.assume(a == c)
+            cols.append(a)
+        n = seq.length
+        if not (z3.is_const(n) or z3.is_int_value(n)):
+            n2 = z3.Int(self.reg.fresh(base + "_len"))
+            self.assume(n2 == n)
+            n = n2
+        out = SymSeq(n, cols, seq.width, seq.kind, seq.name or base)
+        for attr in ('distinct', 'sorted_from', 'deleted_from'):
+            if hasattr(seq, attr):
+                setattr(out, attr, getattr(seq, attr))
+        return out
+
     def fresh_seq(self, base, etype, kind='list'):
         """etype: 'int' | 'real' | 'str' | 'bool' | ('tuple', [etypes]) | ('row', n, etype)"""
         n = z3.Int(self.reg.fresh(base + ".len"))
